@@ -45,6 +45,7 @@ def plan(tier, seed):
     nch = 8 if tier == "quick" else 16
     specs += [{"part": "memory2p", "seed": seed, "i": j, "tier": tier, "chunk": j, "nchunks": nch} for j in range(nch)]
     specs += [{"part": "filesched", "seed": seed, "i": i, "tier": tier} for i in range(8 if tier == "quick" else 60)]
+    specs += [{"part": "loggersched", "seed": seed, "i": i, "tier": tier} for i in range(6 if tier == "quick" else 48)]
     specs += [{"part": "filestress", "seed": seed, "i": i, "tier": tier} for i in range(6 if tier == "quick" else 36)]
     return specs
 
@@ -375,6 +376,98 @@ def run_filesched(spec, res):
         execute(p)
 
 
+# --------------------------------------------------------------------------- the production Logger under the scheduler
+
+
+def run_loggersched(spec, res):
+    """Two writer threads log typed messages of one MessageType that nobody has used before through the production Logger to
+    the registered destinations while (odd cases) a third thread adds global fields: every message is delivered exactly once,
+    intact and serialized, nothing raises, nothing else is delivered."""
+    from eliot import Logger, add_destinations, remove_destination, add_global_fields
+    rng = random.Random("%s:C16:lg:%d" % (spec["seed"], spec["i"]))
+    with_g = spec["i"] % 2 == 1
+    nmsg = rng.choice([1, 2])
+    style = ["log", "logger.write", "call.write"][spec["i"] % 3]
+    names = ["T0", "T1"] + (["G"] if with_g else [])
+    c = res["counters"]
+    dests = Logger._destinations
+    run_no = [0]
+
+    def execute(plan_):
+        run_no[0] += 1
+        dests._globalFields = {"g0": 0}
+        got = []
+        add_destinations(got.append)
+        logger = Logger()
+        mt = MessageType("c16:typed%d" % run_no[0], [Field("t", (lambda v: "s:%s" % (v,)), ""), Field("seq", (lambda v: "s:%s" % (v,)), ""),
+                                                     Field("v", (lambda v: "s:%s" % (v,)), "")], "")
+
+        def writer(t):
+            def run():
+                for s_ in range(nmsg):
+                    if style == "log":
+                        mt.log(t=t, seq=s_, v=7)
+                    elif style == "call.write":
+                        mt(t=t, seq=s_, v=7).write(logger)
+                    else:
+                        logger.write({"t": t, "seq": s_, "v": 7, "message_type": mt.message_type, "task_uuid": "u", "task_level": [1], "timestamp": 1.0},
+                                     mt._serializer)
+            return run
+
+        def globals_adder():
+            add_global_fields(**{"k%d_a" % run_no[0]: 1})
+            add_global_fields(**{"k%d_b" % run_no[0]: 2})
+        workers = {"T0": writer(0), "T1": writer(1)}
+        if with_g:
+            workers["G"] = globals_adder
+        try:
+            st, errs = sched.run_schedule(plan_, workers, timeout=60.0)
+        finally:
+            remove_destination(got.append)
+        problems = ["%s: the call raised %r" % (n, e) for n, e in errs.items()]
+        seen = {}
+        for m in got:
+            if not isinstance(m, dict) or m.get("message_type") != mt.message_type:
+                problems.append("a message nobody logged was delivered: %r" % ({k: m.get(k) for k in ("message_type", "reason", "exception")} if isinstance(m, dict) else m,))
+                continue
+            key = (m.get("t"), m.get("seq"))
+            seen[key] = seen.get(key, 0) + 1
+            if m.get("v") != "s:7" or not str(m.get("t")).startswith("s:") or not str(m.get("seq")).startswith("s:"):
+                problems.append("message delivered with fields not serialized (torn): %r" % ({k: m.get(k) for k in ("t", "seq", "v")},))
+            if "g0" not in m:
+                problems.append("message delivered without the global field set before the threads started")
+        for t in (0, 1):
+            for s_ in range(nmsg):
+                n = seen.get(("s:%d" % t, "s:%d" % s_), 0)
+                if n != 1:
+                    problems.append("message (thread %d, seq %d) was delivered %d times" % (t, s_, n))
+        res["evals"] += 1
+        c["logger_schedules_run"] = c.get("logger_schedules_run", 0) + 1
+        c["logger_messages_checked"] = c.get("logger_messages_checked", 0) + len(got)
+        res["sets"]["interleavings"].append(sched.trace_hash(st))
+        for nm, k, loc in st["fired"]:
+            res["sets"]["preemption_lines"].append(loc)
+        if st["fired"]:
+            res["nontrivial"].append(sched.trace_hash(st))
+        if st["deadlock"]:
+            problems.append("threads deadlocked inside the logger: %s" % st["deadlock"])
+        elif st["aborted"]:
+            res["inconclusive"] = "schedule abandoned: %s" % st["aborted"]
+        if problems and len(res["violations"]) < 3:
+            res["violations"].append({"msg": problems[0], "mech": None, "detail": {"part": "loggersched", "plan": plan_, "style": style,
+                                                                                   "global_fields_thread": with_g, "problems": problems[:5]}})
+        return st
+
+    for order in itertools.permutations(names):
+        base = execute({"order": list(order), "changes": []})
+        for p in sched.one_preemption_plans(list(order), base["events"]):
+            execute(p)
+            if len(res["violations"]) >= 3:
+                return
+    for p in sched.sampled_plans(rng, names, base["events"], 30 if spec["tier"] == "quick" else 300):
+        execute(p)
+
+
 # --------------------------------------------------------------------------- file stress with OS scheduling
 
 
@@ -437,12 +530,14 @@ def run_case(spec):
         run_filestress(spec, res)
         return res
     from eliot import _validation
-    n = sched.instrument([_output, _validation] if spec["part"] in ("memory", "memory2p") else [_output])
+    n = sched.instrument([_output, _validation] if spec["part"] in ("memory", "memory2p", "loggersched") else [_output])
     res["counters"]["code_objects_instrumented"] = n
     if spec["part"] == "memory2p":
         run_memory2p(spec, res)
     elif spec["part"] == "memory":
         run_memory(spec, res)
+    elif spec["part"] == "loggersched":
+        run_loggersched(spec, res)
     else:
         run_filesched(spec, res)
     return res
